@@ -46,6 +46,30 @@ type field struct {
 	get  func(db *sqlite.DB, ctx context.Context) (string, error)
 }
 
+// wantOf: what the getter string must be for value v, computed from the value handed to the setter and NOT through
+// the store (for the fields whose values have one obvious encoding); "" = no independent expectation.
+func wantOf(name string, v int) string {
+	switch name {
+	case "TO0SignNonce":
+		return str(nonce(0x10, v))
+	case "TO1ProofNonce":
+		return str(nonce(0x20, v))
+	case "GUID":
+		return str(guidOf(2, v))
+	case "ReplacementGUID":
+		return str(guidOf(3, v))
+	case "ReplacementHmac":
+		return str(protocol.Hmac{Algorithm: []protocol.HashAlg{protocol.HmacSha256Hash, protocol.HmacSha384Hash}[v], Value: bytes.Repeat([]byte{byte(0x30 + v)}, 32+16*v)})
+	case "ProveDeviceNonce":
+		return str(nonce(0x40, v))
+	case "SetupDeviceNonce":
+		return str(nonce(0x50, v))
+	case "MTU":
+		return str(uint16(1300 + 64235*v))
+	}
+	return ""
+}
+
 func nonce(tag byte, v int) (n protocol.Nonce) {
 	for i := range n {
 		n[i] = tag + byte(v)*0x10 + byte(i)
@@ -622,6 +646,9 @@ func (w *world) expected(f field, v int) string {
 	if err != nil {
 		r.Violation("lost-value:"+f.name, fmt.Sprintf("%s value %d cannot be read back even on a fresh single-token database: %v", f.name, v, err), nil)
 		s = "UNREADABLE"
+	}
+	if want := wantOf(f.name, v); want != "" && err == nil && s != want {
+		r.Violation("wrong-value:"+f.name+":not-the-value-stored", fmt.Sprintf("%s value %d: read back %s, stored %s", f.name, v, short(s), short(want)), map[string]any{"value": v})
 	}
 	if f.name == "XSession" && err == nil {
 		// independent expectation: the session handed to the store, serialised by the session itself
